@@ -3,7 +3,7 @@
     program) produces well-formed semantic normal forms and obeys the documented laws of the
     block combinators. *)
 From Coq Require Import ZArith List Bool Arith String.
-From SP Require Import Design.Sem Design.Flat Design.DocSem Design.DocSemProofs.
+From SP Require Import Design.Sem Design.Flat Design.DocSem Design.DocSemProofs Design.DocSemPlain.
 Import ListNotations.
 Local Open Scope nat_scope.
 
@@ -87,6 +87,30 @@ Theorem T2_crossing_multiplicity_rcc : forall p d ex cr x bd forder maxp dc idx 
   exists combo w, combo_weight p cr combo = Ok w /\ m = w * x_cw x * x_su x.
 Proof. exact crossing_multiplicity_rcc. Qed.
 Print Assumptions T2_crossing_multiplicity_rcc.
+
+(** (b) Exclude of a crossed level, complete crossing not required: exactly the combinations that
+    contain the level disappear (plain designs: every design factor simple) *)
+Theorem T2_exclude_removes_exactly : forall p design cr excludes f n fe fe',
+  Forall (simple_id p) design -> incl cr design -> Forall (fun fn => simple_id p (fst fn)) excludes -> In f cr ->
+  feasible_combos p design cr excludes = Ok fe ->
+  feasible_combos p design cr (excludes ++ [(f, n)]) = Ok fe' ->
+  forall combo, In combo (map fst fe') <-> In combo (map fst fe) /\ ~ In (f, n) (combine cr combo).
+Proof. exact exclude_removes_exactly. Qed.
+Print Assumptions T2_exclude_removes_exactly.
+
+Theorem T2_exclude_removes_exactly_crossing : forall p design cr excludes f n x x',
+  Forall (simple_id p) design -> incl cr design -> Forall (fun fn => simple_id p (fst fn)) excludes -> In f cr ->
+  doc_crossing p design excludes false cr = Ok x ->
+  doc_crossing p design (excludes ++ [(f, n)]) false cr = Ok x' ->
+  forall combo, In combo (map fst (x_combos x')) <-> In combo (map fst (x_combos x)) /\ ~ In (f, n) (combine cr combo).
+Proof. exact exclude_removes_exactly_crossing. Qed.
+Print Assumptions T2_exclude_removes_exactly_crossing.
+
+Theorem T2_feasible_plain_weight : forall p design cr excludes fe combo w,
+  Forall (simple_id p) design -> incl cr design -> Forall (fun fn => simple_id p (fst fn)) excludes ->
+  feasible_combos p design cr excludes = Ok fe -> In (combo, w) fe -> combo_weight p cr combo = Ok w.
+Proof. exact feasible_plain_weight. Qed.
+Print Assumptions T2_feasible_plain_weight.
 
 (** the hypotheses are satisfiable: the Stroop design of the guide (colour x word crossed, a
     within-trial congruency factor with an else-level, AtMostKInARow(1, congruent)) *)
